@@ -1,0 +1,16 @@
+//go:build verif
+
+package forwarder
+
+// VerifRelayDefaults returns the Forwarder configuration after Config.setDefaults
+// (what NewForwarder works with), for the verification harness.
+func VerifRelayDefaults(c Config) Config {
+	c.setDefaults()
+	return c
+}
+
+// VerifRelayPublisherDefaults returns the Publisher configuration after PublisherConfig.setDefaults.
+func VerifRelayPublisherDefaults(c PublisherConfig) PublisherConfig {
+	c.setDefaults()
+	return c
+}
